@@ -1,6 +1,7 @@
 package main
 
 import (
+	"fmt"
 	"go/token"
 	"go/types"
 	"strings"
@@ -264,6 +265,13 @@ func checkC18(c *Ctx) {
 		}
 	}
 
+	// ---- (2b) prefix + 1 (exclusive end of a namespace)
+	c.rule("TABLE-prefix-increment", "end bound of a prefix range: increment with carry", 6)
+	checkCpIncrTable(c, l, "TABLE-prefix-increment", "db.cpIncr", l.Func("db", "cpIncr"))
+	checkCpIncrTable(c, l, "TABLE-prefix-increment", "internal/bytes.CpIncr", l.Func("internal/bytes", "CpIncr"))
+
+	checkBackendTables(c)
+
 	// ---- (3) batch typestate
 	for _, bt := range []struct{ tname, state string }{{"memDBBatch", "ops"}, {"goLevelDBBatch", "batch"}} {
 		fState := l.Field("db", bt.tname, bt.state)
@@ -400,3 +408,361 @@ func checkC18(c *Ctx) {
 }
 
 var _ = types.NewPointer
+
+// checkBackendTables: positioning and range logic of the LevelDB and MemDB
+// iterator adapters as decision tables over bounds absent/present, direction
+// and the ordering of the current key against the bounds.
+func checkBackendTables(c *Ctx) {
+	l := c.L
+	c.rule("TABLE-backend-iterators", "iterator adapters: positioning and [start,end) cut-off for every bounds/direction/ordering combination", 30)
+	b2i := func(b bool) int {
+		if b {
+			return 1
+		}
+		return -1
+	}
+	invokeEv := func(call *ssa.Call) string {
+		if call.Call.IsInvoke() {
+			return call.Call.Method.Name()
+		}
+		if f := staticCallee(&call.Call); f != nil && f.Signature.Recv() != nil && !l.inModule(f) {
+			return f.Name()
+		}
+		return ""
+	}
+	// (a) LevelDB positioning
+	if fn := l.Func("db", "newGoLevelDBIterator"); fn == nil {
+		c.anchorMissing("TABLE-backend-iterators", "newGoLevelDBIterator")
+	} else {
+		for _, rev := range []bool{true, false} {
+			for _, sNil := range []bool{true, false} {
+				for _, eNil := range []bool{true, false} {
+					for _, seekOK := range []bool{true, false} {
+						for _, ord := range []int{-1, 0, 1} { // cmp(end, key at or after end)
+							rev, sNil, eNil, seekOK, ord := rev, sNil, eNil, seekOK, ord
+							env := &tableEnv{l: l, flag: map[string]int{}, cmp: func(a, b string) (int, bool) {
+								if a == "arg2" {
+									return ord, true
+								}
+								return 0, false
+							}}
+							env.isNil = func(role string) int {
+								switch role {
+								case "arg1":
+									return b2i(sNil)
+								case "arg2":
+									return b2i(eNil)
+								}
+								return 0
+							}
+							w := &walker{vals: map[ssa.Value]int{}}
+							w.env = &walkEnv{evalAtom: func(w *walker, v ssa.Value) int {
+								if p, ok := v.(*ssa.Parameter); ok && p.Name() == "isReverse" {
+									return b2i(rev)
+								}
+								if call, ok := v.(*ssa.Call); ok && call.Call.IsInvoke() && call.Call.Method.Name() == "Seek" {
+									return b2i(seekOK)
+								}
+								return env.atom(w, v)
+							}}
+							w.onCall = func(w *walker, call *ssa.Call) {
+								if ev := invokeEv(call); ev != "" && ev != "Key" {
+									arg := ""
+									if ev == "Seek" {
+										arg = "(" + roleOf(l, call.Call.Args[0], "", 0) + ")"
+									}
+									w.events = append(w.events, ev+arg)
+								}
+							}
+							ret, _ := w.run(fn)
+							var want string
+							switch {
+							case rev && eNil:
+								want = "Last"
+							case rev && seekOK && ord <= 0:
+								want = "Seek(arg2),Prev"
+							case rev && seekOK:
+								want = "Seek(arg2)"
+							case rev:
+								want = "Seek(arg2),Last"
+							case sNil:
+								want = "First"
+							default:
+								want = "Seek(arg1)"
+							}
+							got := strings.Join(w.events, ",")
+							// only report distinct meaningful environments
+							if !rev && (seekOK || ord != 0 || eNil) {
+								continue
+							}
+							if rev && eNil && (seekOK || ord != 0 || sNil) {
+								continue
+							}
+							if rev && !eNil && sNil {
+								continue
+							}
+							if rev && !eNil && !seekOK && ord != 0 {
+								continue
+							}
+							c.decide("TABLE-backend-iterators", fmt.Sprintf("LevelDB positioning reverse=%v start absent=%v end absent=%v seek found=%v end vs found key %+d", rev, sNil, eNil, seekOK, ord), l.pos(fn.Pos()), got == want && ret != nil,
+								got, "positions with ["+got+"], the rule is ["+want+"] (reverse iteration starts at the last key strictly below end)")
+						}
+					}
+				}
+			}
+		}
+	}
+	// (b) LevelDB Valid cut-off
+	if fn := l.Func("db", "*goLevelDBIterator.Valid"); fn == nil {
+		c.anchorMissing("TABLE-backend-iterators", "goLevelDBIterator.Valid")
+	} else {
+		for _, rev := range []bool{true, false} {
+			for _, bNil := range []bool{true, false} {
+				for _, ord := range []int{-1, 0, 1} { // cmp(key, bound)
+					rev, bNil, ord := rev, bNil, ord
+					env := &tableEnv{l: l, flag: map[string]int{"isInvalid": -1, "isReverse": b2i(rev), "Valid()": 1}, cmp: func(a, b string) (int, bool) {
+						// forward compares (end, key); reverse compares (key, start)
+						if strings.HasPrefix(a, "Key(") {
+							return ord, true
+						}
+						if strings.HasPrefix(b, "Key(") {
+							return -ord, true
+						}
+						return 0, false
+					}}
+					env.isNil = func(role string) int {
+						if role == "start" || role == "end" {
+							return b2i(bNil)
+						}
+						return 0
+					}
+					w := &walker{vals: map[ssa.Value]int{}}
+					env.recv = fn.Params[0].Name()
+					w.env = &walkEnv{evalAtom: func(w *walker, v ssa.Value) int {
+						if call, ok := v.(*ssa.Call); ok && call.Call.IsInvoke() && call.Call.Method.Name() == "Valid" {
+							return 1
+						}
+						return env.atom(w, v)
+					}}
+					ret, stuck := w.run(fn)
+					got := "stuck"
+					if ret != nil {
+						got = roleOf(l, retVal(ret, 0), env.recv, 0)
+					} else if stuck != nil {
+						got = "stuck at " + l.ipos(stuck)
+					}
+					valid := bNil || (rev && ord >= 0) || (!rev && ord < 0)
+					want := map[bool]string{true: "true", false: "false"}[valid]
+					bound := map[bool]string{true: "start", false: "end"}[rev]
+					c.decide("TABLE-backend-iterators", fmt.Sprintf("LevelDB Valid reverse=%v %s absent=%v key vs %s %+d", rev, bound, bNil, bound, ord), l.pos(fn.Pos()), got == want, got, "Valid() is "+got+", the range [start,end) requires "+want)
+				}
+			}
+		}
+	}
+	// (c) MemDB traversal selection
+	outer := l.Func("db", "newMemDBIteratorMtxChoice")
+	if outer == nil || len(outer.AnonFuncs) == 0 {
+		c.anchorMissing("TABLE-backend-iterators", "newMemDBIteratorMtxChoice goroutine")
+		return
+	}
+	gor := outer.AnonFuncs[0]
+	for _, af := range outer.AnonFuncs {
+		if len(af.AnonFuncs) > 0 {
+			gor = af
+		}
+	}
+	for _, sNil := range []bool{true, false} {
+		for _, eNil := range []bool{true, false} {
+			for _, rev := range []bool{true, false} {
+				sNil, eNil, rev := sNil, eNil, rev
+				env := &tableEnv{l: l, flag: map[string]int{}, cmp: func(a, b string) (int, bool) { return 0, false }}
+				w := &walker{vals: map[ssa.Value]int{}}
+				w.env = &walkEnv{evalAtom: func(w *walker, v ssa.Value) int {
+					if u, ok := v.(*ssa.UnOp); ok && u.Op == token.NOT {
+						return 0 // negations are evaluated by the walker
+					}
+					switch valueName(v) {
+					case "useMtx":
+						if _, isBin := v.(*ssa.BinOp); !isBin {
+							return -1
+						}
+					case "reverse":
+						if _, isBin := v.(*ssa.BinOp); !isBin {
+							return b2i(rev)
+						}
+					}
+					if bo, ok := v.(*ssa.BinOp); ok {
+						if vv, nn, isNil := nilCond(bo); isNil {
+							var n int
+							switch valueName(vv) {
+							case "start":
+								n = b2i(sNil)
+							case "end":
+								n = b2i(eNil)
+							default:
+								return env.atom(w, v)
+							}
+							if nn == 0 {
+								return -n
+							}
+							return n
+						}
+					}
+					return env.atom(w, v)
+				}}
+				w.onCall = func(w *walker, call *ssa.Call) {
+					if f := staticCallee(&call.Call); f != nil && f.Signature.Recv() != nil && strings.Contains(f.String(), "btree") {
+						w.events = append(w.events, f.Name())
+					}
+				}
+				w.onStore = func(w *walker, st *ssa.Store) {
+					if n := valueName(st.Addr); n == "skipEqual" || n == "abortLessThan" {
+						if !isNilConst(stripTrivial(st.Val)) {
+							w.events = append(w.events, n+":="+valueName(st.Val))
+						}
+					}
+				}
+				w.run(gor)
+				var want string
+				switch {
+				case sNil && eNil && !rev:
+					want = "Ascend"
+				case sNil && eNil:
+					want = "Descend"
+				case eNil && !rev:
+					want = "AscendGreaterOrEqual"
+				case !rev:
+					want = "AscendRange"
+				case eNil:
+					want = "abortLessThan:=start,Descend"
+				default:
+					want = "skipEqual:=end,abortLessThan:=start,DescendLessOrEqual"
+				}
+				got := strings.Join(w.events, ",")
+				c.decide("TABLE-backend-iterators", fmt.Sprintf("MemDB traversal start absent=%v end absent=%v reverse=%v", sNil, eNil, rev), l.pos(gor.Pos()), got == want, got, "uses ["+got+"], the rule is ["+want+"] (btree's descending range is (start,end]; [start,end) needs the end skipped and a stop below start)")
+			}
+		}
+	}
+	// (d) MemDB visitor
+	if len(gor.AnonFuncs) == 0 {
+		c.anchorMissing("TABLE-backend-iterators", "MemDB visitor closure")
+		return
+	}
+	vis := gor.AnonFuncs[0]
+	for _, sk := range []int{0, 1, 2} { // skipEqual: absent, equal to key, different
+		for _, ab := range []int{0, 1, 2} { // abortLessThan: absent, key below it, key not below it
+			sk, ab := sk, ab
+			env := &tableEnv{l: l, flag: map[string]int{}, cmp: func(a, b string) (int, bool) { return 0, false }}
+			w := &walker{vals: map[ssa.Value]int{}}
+			w.env = &walkEnv{evalAtom: func(w *walker, v ssa.Value) int {
+				if bo, ok := v.(*ssa.BinOp); ok {
+					if vv, nn, isNil := nilCond(bo); isNil {
+						var n int
+						switch valueName(vv) {
+						case "skipEqual":
+							n = b2i(sk == 0)
+						case "abortLessThan":
+							n = b2i(ab == 0)
+						default:
+							return env.atom(w, v)
+						}
+						if nn == 0 {
+							return -n
+						}
+						return n
+					}
+					if call, ok := stripTrivial(bo.X).(*ssa.Call); ok {
+						if f := staticCallee(&call.Call); f != nil && f.String() == "bytes.Compare" {
+							if k, isC := constInt(bo.Y); isC {
+								o := 1
+								if ab == 1 {
+									o = -1
+								}
+								return cmpHolds(bo.Op, sign(int64(o)-k))
+							}
+						}
+					}
+				}
+				if call, ok := v.(*ssa.Call); ok {
+					if f := staticCallee(&call.Call); f != nil && f.String() == "bytes.Equal" {
+						return b2i(sk == 1)
+					}
+				}
+				return env.atom(w, v)
+			}}
+			sent := false
+			var ret *ssa.Return
+			// the visitor ends in a select: walk until the select, then stop
+			b := vis.Blocks[0]
+			var prev *ssa.BasicBlock
+			outcome := ""
+			for steps := 0; steps < 50 && outcome == ""; steps++ {
+				for _, in := range b.Instrs {
+					if p, ok := in.(*ssa.Phi); ok {
+						for i, pb := range b.Preds {
+							if pb == prev {
+								w.vals[p] = w.eval(p.Edges[i], 0)
+							}
+						}
+					}
+				}
+				for _, in := range b.Instrs {
+					switch x := in.(type) {
+					case *ssa.Store:
+						if valueName(x.Addr) == "skipEqual" && isNilConst(stripTrivial(x.Val)) {
+							outcome += "clear-skip,"
+						}
+					case *ssa.Select:
+						sent = true
+						outcome += "send"
+					case *ssa.If:
+						if outcome == "send" {
+							break
+						}
+						r := w.eval(x.Cond, 0)
+						if r == 0 {
+							outcome += "stuck"
+						} else {
+							prev = b
+							if r > 0 {
+								b = b.Succs[0]
+							} else {
+								b = b.Succs[1]
+							}
+						}
+					case *ssa.Jump:
+						prev = b
+						b = b.Succs[0]
+					case *ssa.Return:
+						ret = x
+						k, _ := stripTrivial(retVal(x, 0)).(*ssa.Const)
+						if k != nil && k.Value != nil {
+							outcome += "return " + k.Value.String()
+						} else {
+							outcome += "return ?"
+						}
+					}
+					if outcome != "" && !strings.HasSuffix(outcome, ",") {
+						break
+					}
+				}
+				if strings.HasSuffix(outcome, ",") {
+					// after clearing skipEqual the visitor returns true
+					continue
+				}
+			}
+			_ = sent
+			_ = ret
+			var want string
+			switch {
+			case sk == 1:
+				want = "clear-skip,return true"
+			case ab == 1:
+				want = "return false"
+			default:
+				want = "send"
+			}
+			c.decide("TABLE-backend-iterators", fmt.Sprintf("MemDB visitor skipEqual=%s abortLessThan=%s", []string{"absent", "equals key", "differs"}[sk], []string{"absent", "key below", "key not below"}[ab]), l.pos(vis.Pos()), outcome == want, outcome, "visitor does ["+outcome+"], the rule is ["+want+"] (skip the exclusive end once, stop below start, otherwise yield)")
+		}
+	}
+}
